@@ -7,12 +7,16 @@ Every call inside the body of `save` is classified, in evaluation order
   self.open_out_stream(..)                      -> SOpen   (truncating open of the target)
   self._go_across(..) / self.to_dict(..) /
   self.register_eobject_epackage(..)            -> SBuild  (walks the model; may raise)
+  Element / QName / SubElement / ElementTree,
+  x.append(..), x.update(..) on anything that is
+  not a local dict literal, x[..] = ..           -> SBuild  (lxml validates names and values: may raise)
+  Element(.., nsmap=..)                          -> SNs     (root element with the collected namespaces)
   json.dumps(..)                                -> SEncode (may raise)
   tree.write(stream, ..)  [tree = ElementTree]  -> SWrite  (serialises while writing)
   stream.write(..)                              -> SWrite
+  stream.flush()                                -> SFlush
   self.uri.close_stream()                       -> SClose
-  a fixed list of calls without effect on the target (Element, QName, len,
-  .get/.clear/.append/.update/.encode/.flush ...) -> nothing
+  len, .get / .clear / .encode, .update on a local dict literal -> nothing
 
 Anything else (an unknown call, try/with/while, branches of an `if` with
 different effects, a write on something that is not the opened stream) is
@@ -28,8 +32,10 @@ OUT = os.path.join(VERIF, 'coq', 'Gen', 'SaveOrder.v')
 
 BUILD_METHODS = {'_go_across', 'to_dict', 'register_eobject_epackage'}
 # calls that neither touch the target nor walk the model
-BENIGN_FUNCS = {'len', 'QName', 'Element', 'ElementTree', 'SubElement'}
-BENIGN_METHODS = {'get', 'clear', 'append', 'update', 'encode', 'flush'}
+BENIGN_FUNCS = {'len'}
+BENIGN_METHODS = {'get', 'clear', 'encode'}
+TREE_FUNCS = {'QName', 'Element', 'ElementTree', 'SubElement'}     # lxml constructors: may raise
+TREE_METHODS = {'append', 'update'}
 
 
 class Refused(Exception):
@@ -60,6 +66,7 @@ class Effects:
         self.where = where
         self.stream_var = None      # name bound to the result of open_out_stream
         self.tree_vars = set()      # names bound to ElementTree(..)
+        self.dict_vars = set()      # names bound to a dict literal (their .update cannot raise)
 
     def refuse(self, node, why):
         src = ast.unparse(node)
@@ -88,6 +95,18 @@ class Effects:
             if recv is not None and recv == self.stream_var:
                 return ['SWrite']
             self.refuse(c, 'write on something that is not the stream opened by open_out_stream')
+        if isinstance(f, ast.Attribute) and f.attr == 'flush':
+            if dotted(f.value) is not None and dotted(f.value) == self.stream_var:
+                return ['SFlush']
+            self.refuse(c, 'flush on something that is not the stream opened by open_out_stream')
+        if isinstance(f, ast.Name) and f.id in TREE_FUNCS:
+            if f.id == 'Element' and any(k.arg == 'nsmap' for k in c.keywords):
+                return ['SNs']
+            return ['SBuild']
+        if isinstance(f, ast.Attribute) and f.attr in TREE_METHODS:
+            if f.attr == 'update' and dotted(f.value) in self.dict_vars:
+                return []
+            return ['SBuild']
         if isinstance(f, ast.Name) and f.id in BENIGN_FUNCS:
             return []
         if isinstance(f, ast.Attribute) and f.attr in BENIGN_METHODS:
@@ -135,6 +154,10 @@ class Effects:
             targets = s.targets if isinstance(s, ast.Assign) else [s.target]
             for t in targets:
                 eff += self.expr(t) if not isinstance(t, ast.Name) else []
+                if isinstance(t, ast.Subscript):
+                    eff += ['SBuild']       # item / slice assignment on a tree node: lxml may raise
+            if isinstance(value, ast.Dict) and len(targets) == 1 and isinstance(targets[0], ast.Name):
+                self.dict_vars.add(targets[0].id)
             if isinstance(value, ast.Call):
                 n = dotted(value.func)
                 if n == 'self.open_out_stream':
@@ -181,9 +204,11 @@ def save_effects(relpath, clsname):
                 if isinstance(m, ast.FunctionDef) and m.name == 'save':
                     e = Effects(f'{relpath}:{clsname}.save')
                     seq = dedupe(e.stmts(m.body))
-                    for need in ('SOpen', 'SBuild', 'SWrite'):
+                    for need in ('SOpen', 'SWrite'):
                         if seq.count(need) != 1:
                             raise Refused(f'{relpath}:{clsname}.save: expected exactly one {need} in {seq}')
+                    if 'SBuild' not in seq:
+                        raise Refused(f'{relpath}:{clsname}.save: no construction step in {seq}')
                     return seq
     raise Refused(f'{relpath}: {clsname}.save not found')
 
